@@ -39,6 +39,7 @@ MODULES = {
     "C15": ("mcx.checks.c15", {}),
     "C16": ("mcx.checks.c16", {}),
     "C17": ("mcx.checks.c17", {}),
+    "C18": ("mcx.checks.c18", {}),
     "C19": ("mcx.checks.c19", {}),
 }
 
